@@ -265,6 +265,11 @@ type Run struct {
 	witness   map[int]*big.Int
 	witnessOK bool
 
+	// sigma is the triangular substitution derived from the equalities of the path condition
+	// (x ↦ polynomial over other variables); goals are normalised under it before they are posed.
+	sigma map[int]*Poly
+	facts map[string]bool
+
 	out      *Outcome
 	readers  map[string]*Reader
 	monitor  []ReadEvent
@@ -355,6 +360,13 @@ func (r *Run) Assume(p Pred) {
 		}
 		return
 	}
+	p = r.norm(p)
+	switch p.(type) {
+	case pTrue:
+		return
+	case pFalse:
+		panic(abortPath{"assumption false under the path condition"})
+	}
 	// feasibility is required (vacuity guard): path ∧ p must be satisfiable
 	if v := r.feasible(p); v == Unsat {
 		panic(abortPath{"assumption infeasible"})
@@ -372,6 +384,191 @@ func (r *Run) addPath(p Pred) {
 	r.pathK[k] = true
 	r.path = append(r.path, p)
 	r.witnessOK = false
+	r.propagate()
+}
+
+// norm rewrites a predicate under the substitution sigma and the known facts of the path (sound:
+// both are implied by the path condition). The rewritten predicate is equivalent to the original
+// one for every assignment satisfying the path; this is self-checked on the path witness.
+func (r *Run) norm(p Pred) Pred {
+	out := p
+	if len(r.sigma) > 0 {
+		out = out.mapPolys(r.normPoly)
+	}
+	out = r.withFacts(out)
+	return out
+}
+
+// withFacts prunes a predicate using literals already known to hold on the path.
+func (r *Run) withFacts(p Pred) Pred {
+	switch v := p.(type) {
+	case pTrue, pFalse:
+		return p
+	case pAnd:
+		xs := make([]Pred, 0, len(v.xs))
+		for _, x := range v.xs {
+			xs = append(xs, r.withFacts(x))
+		}
+		return And(xs...)
+	case pOr:
+		xs := make([]Pred, 0, len(v.xs))
+		for _, x := range v.xs {
+			xs = append(xs, r.withFacts(x))
+		}
+		return Or(xs...)
+	case pNot:
+		if r.facts[v.key()] {
+			return pTrue{}
+		}
+		if r.facts[v.x.key()] {
+			return pFalse{}
+		}
+		inner := r.withFacts(v.x)
+		return Not(inner)
+	default:
+		k := p.key()
+		if r.facts[k] {
+			return pTrue{}
+		}
+		if r.facts[Not(p).key()] {
+			return pFalse{}
+		}
+		return p
+	}
+}
+
+// propagate brings sigma and the fact set to a fixpoint over the path literals.
+func (r *Run) propagate() {
+	if r.facts == nil {
+		r.facts = map[string]bool{}
+	}
+	for round := 0; round < 32; round++ {
+		changed := false
+		for _, l := range r.path {
+			n := l
+			if len(r.sigma) > 0 {
+				n = n.mapPolys(r.normPoly)
+			}
+			n = r.withFactsExcept(n)
+			if r.assertFact(n) {
+				changed = true
+			}
+		}
+		if !changed {
+			return
+		}
+	}
+}
+
+// withFactsExcept is withFacts, but a literal must not be simplified away by its own fact.
+func (r *Run) withFactsExcept(p Pred) Pred {
+	k := p.key()
+	if r.facts[k] {
+		return p
+	}
+	return r.withFacts(p)
+}
+
+// assertFact records a simplified path literal; returns true if something new was learnt.
+func (r *Run) assertFact(p Pred) bool {
+	switch v := p.(type) {
+	case pTrue:
+		return false
+	case pFalse:
+		panic(abortPath{"path condition contradictory"})
+	case pAnd:
+		ch := false
+		for _, x := range v.xs {
+			if r.assertFact(x) {
+				ch = true
+			}
+		}
+		return ch
+	}
+	k := p.key()
+	if r.facts[k] {
+		return false
+	}
+	r.facts[k] = true
+	r.learn(p)
+	return true
+}
+
+func (r *Run) normPoly(p *Poly) *Poly {
+	for iter := 0; iter < 64; iter++ {
+		changed := false
+		for m := range p.t {
+			for _, v := range monoVars(m) {
+				if s, ok := r.sigma[v]; ok {
+					p = p.subst(v, s, r.q)
+					changed = true
+					break
+				}
+			}
+			if changed {
+				break
+			}
+		}
+		if !changed {
+			return p
+		}
+	}
+	return p
+}
+
+// learn extends sigma from an (already normalised) equality literal: if some variable occurs only
+// in a degree-one monomial with a constant coefficient, it is solved for.
+func (r *Run) learn(p Pred) {
+	switch v := p.(type) {
+	case pEqZ:
+		poly := v.p
+		// candidate variables: monomials that are a single variable
+		var best = -1
+		for m := range poly.t {
+			vs := monoVars(m)
+			if len(vs) != 1 {
+				continue
+			}
+			x := vs[0]
+			// x must not occur in any other monomial
+			occ := 0
+			for m2 := range poly.t {
+				for _, y := range monoVars(m2) {
+					if y == x {
+						occ++
+					}
+				}
+			}
+			// only unit coefficients: dividing by a general coefficient would turn small
+			// coefficients into 256-bit ones, which the solvers handle far worse (probed: a
+			// linear system they decide in ms became `unknown`)
+			c := poly.t[m]
+			unit := c.Cmp(big.NewInt(1)) == 0 || new(big.Int).Add(c, big.NewInt(1)).Cmp(r.q) == 0
+			if occ == 1 && unit && (best < 0 || x > best) {
+				best = x // prefer the most recently created variable
+			}
+		}
+		if best < 0 {
+			return
+		}
+		c := poly.t[itoa(best)]
+		rest := &Poly{t: map[string]*big.Int{}}
+		for m, cc := range poly.t {
+			if m != itoa(best) {
+				rest.t[m] = cc
+			}
+		}
+		inv := new(big.Int).ModInverse(c, r.q)
+		expr := rest.scale(new(big.Int).Neg(inv), r.q) // x = -rest/c
+		if r.sigma == nil {
+			r.sigma = map[int]*Poly{}
+		}
+		// keep sigma idempotent: substitute x in existing ranges
+		for k, e := range r.sigma {
+			r.sigma[k] = e.subst(best, expr, r.q)
+		}
+		r.sigma[best] = expr
+	}
 }
 
 func trunc(s string, n int) string {
@@ -524,6 +721,13 @@ func (r *Run) feasible(p Pred) Verdict {
 
 // entailed: does path ⊨ p ? (unsat of path ∧ ¬p); never seeded.
 func (r *Run) entailed(p Pred) Verdict {
+	p = r.norm(p)
+	switch p.(type) {
+	case pTrue:
+		return Unsat
+	case pFalse:
+		return Sat
+	}
 	// cheap refutation first: a witness of the path that falsifies p shows non-entailment
 	if w := r.pathWitness(); w != nil && !p.eval(w, r.q) {
 		return Sat // "negation satisfiable" → not entailed
@@ -536,6 +740,9 @@ func (r *Run) entailed(p Pred) Verdict {
 // Decisions (branches of the library on symbolic data)
 
 func (r *Run) decide(p Pred) bool {
+	if !r.concrete {
+		p = r.norm(p)
+	}
 	switch p.(type) {
 	case pTrue:
 		return true
@@ -646,6 +853,7 @@ func (r *Run) Valid(id string, p Pred) bool {
 		}
 		return true
 	}
+	p = r.norm(p)
 	switch p.(type) {
 	case pTrue:
 		return true
@@ -687,6 +895,7 @@ func (r *Run) Witness(id string, p Pred) (bool, map[string]string) {
 	if r.concrete {
 		return p.eval(nil, r.q), nil
 	}
+	p = r.norm(p)
 	o.Queries++
 	v, m := r.solve([]Pred{p}, true, true)
 	switch v {
